@@ -12,7 +12,8 @@ from .. import cfgs, gen, refx
 LEVEL = 'exploration'
 RULE = ("Config = {static,dynamic} x alpha in (0,1] x n_inner x d in 1..5 x storage kind x imputer kind x feature-name type x "
         "loss_bigger_is_better, sign-indefinite polynomial / squared / absolute losses, multi-label models; histories come from a "
-        "RuleBasedStateMachine with rules explain_one(x, y, n_inner override, update_storage flag), update_storage(x, y), reseed(a, b) "
+        "RuleBasedStateMachine with rules explain_one(x, y, n_inner override, update_storage flag), update_storage(x, y), reseed(a, b), fork (the explainer is deep-copied, the copy "
+        "carries on, the original must not change) "
         "and from generated whole streams. Invariant after EVERY call (every prefix): sum(importance_values) == explained_loss and "
         "explained_loss == marginal_loss - model_loss; exact (==) when the case runs in exact rationals, within "
         "16(d+2)t*eps*scale for the float twin of the same case (same seeds, values cast to float). "
@@ -33,6 +34,7 @@ class Sim:
         self.explained = 0
         self.stored = 0
         self.nonzero = False
+        self.forks = []
         self.stored_any = self.prefilled
         self.exact_agree = 0
         self.exactness_lost = 0
@@ -44,6 +46,13 @@ class Sim:
             random.seed(op[1])
             np.random.seed(op[2])
             return None
+        if kind == 'fork':
+            # snapshot / fork: the explainer is deep-copied, the copy carries on; the original must stay exactly as it was
+            import copy
+            old = self.ex
+            self.forks.append((old, _estimates(old)))
+            self.ex = copy.deepcopy(old)
+            return None
         x, y = self.h.row({'x': op[1], 'y': op[2], 'perm': op[5] if len(op) > 5 else 0, 'opt': op[6] if len(op) > 6 else None})
         if kind == 'store':
             self.ex.update_storage(x, y)
@@ -51,10 +60,8 @@ class Sim:
             self.stored_any = True
             return None
         n_inner, upd = op[3], op[4]
-        if self.ex.seen_samples >= 1 and not self.cfg.get('library_defaults') and len(self.h.storage) == 0:
+        if self.ex.seen_samples >= 1 and self.stored_any is False:
             return None  # precondition of every documented caller: never explain against an empty storage
-        if self.cfg.get('library_defaults') and self.ex.seen_samples >= 1 and self.stored_any is False:
-            return None
         kw = {}
         if n_inner is not None:
             kw['n_inner_samples'] = n_inner
@@ -73,6 +80,11 @@ class Sim:
         return self.check()
 
     def check(self):
+        for old, snap in self.forks:
+            now = _estimates(old)
+            if now != snap:
+                changed = [k for k in snap if now.get(k) != snap[k]]
+                return 'C01:fork-shares-state', f'a deep copy of the explainer was used further and the ORIGINAL changed: {changed}'
         ex = self.ex
         iv = ex.importance_values
         total = sum(iv.values(), Q(0) if self.h.mode == 'exact' else 0.0)
@@ -96,6 +108,11 @@ class Sim:
     def nontrivial(self):
         c = self.cfg
         return c['d'] >= 2 and self.explained >= 2 and self.nonzero and (not c['dynamic'] or Q(c['alpha']) != 1)
+
+
+def _estimates(ex):
+    return {'importance_values': dict(ex.importance_values), 'variances': dict(ex.variances), 'marginal_loss': ex.marginal_loss,
+            'model_loss': ex.model_loss, 'marginal_prediction': dict(ex.marginal_prediction), 'seen_samples': ex.seen_samples}
 
 
 def refx_is_exact(v):
@@ -141,6 +158,8 @@ def run_case(case):
         labels.append('manual_store')
     if any(op[0] == 'reseed' for op in ops):
         labels.append('reseed')
+    if any(op[0] == 'fork' for op in ops):
+        labels.append('forked_by_deepcopy')
     return Result(True, nontrivial=nt, labels=labels)
 
 
@@ -149,6 +168,8 @@ def stream_case(cfg):
     c = {k: v for k, v in cfg.items() if k not in ('stream', 'mode')}
     if cfg['seeds'][0] % 5 == 0:
         c['library_defaults'] = True    # every fifth case: storage and imputer are the ones the explainer creates itself
+    if cfg['seeds'][1] % 4 == 0 and len(ops) >= 3:
+        ops.insert(len(ops) // 2, ['fork'])
     return {'cfg': c, 'ops': ops}
 
 
@@ -197,6 +218,11 @@ def make_machine():
         @rule(a=gen.seed32, b=gen.seed32)
         def reseed(self, a, b):
             self._do(['reseed', a, b])
+
+        @precondition(lambda self: self.sims is not None and self.sims and len(self.sims[0].forks) < 2)
+        @rule()
+        def fork(self):
+            self._do(['fork'])
 
         def teardown(self):
             if self.sims is None:
